@@ -932,12 +932,8 @@ def edge_triggers(body, bb, depth=0):
 
 def _only_copies(body, p):
     """a block that only moves values / stores constants (no computation): transparent for 'which test led here'"""
-    for st in body.blocks[p]["stmts"]:
-        if st.get("s") == "assign" and st["rv"]["r"] == "use":
-            continue
-        if st.get("s") == "other":
-            continue
-        return False
+    # MIR statements compute and move values but call nothing and decide nothing: a goto-terminated block is transparent
+    # for the question "which test led here" whatever it stores
     return True
 
 
